@@ -44,6 +44,9 @@ type Server struct {
 	commandExecutors     Executors
 	commandMutex         sync.Mutex
 	acceptLoops          sync.WaitGroup
+	// requirePassAuthenticator is the authenticator that Start has
+	// registered for the requirepass parameter.
+	requirePassAuthenticator auth.Authenticator
 }
 
 // NewServer returns a new server instance.
@@ -63,6 +66,8 @@ func NewServer() *Server {
 		commandExecutors:     Executors{},
 		commandMutex:         sync.Mutex{},
 		acceptLoops:          sync.WaitGroup{},
+
+		requirePassAuthenticator: nil,
 	}
 	server.SetPort(DefaultPort)
 	server.registerCoreExecutors()
@@ -94,10 +99,18 @@ func (server *Server) RegisterExexutor(cmd string, executor Executor) {
 
 // Start starts the server.
 func (server *Server) Start() error {
+	// The authenticator of an earlier start is replaced, otherwise a password
+	// changed before a restart is required in addition to the old one.
+	if server.requirePassAuthenticator != nil {
+		server.RemoveAuthenticator(server.requirePassAuthenticator)
+		server.requirePassAuthenticator = nil
+	}
 	password, requirePass := server.ConfigRequirePass()
 	if requirePass {
 		if !server.HasClearTextPasswordAuthenticator("", password) {
-			server.AddAuthenticator(auth.NewClearTextPasswordAuthenticatorWith("", password))
+			authenticator := auth.NewClearTextPasswordAuthenticatorWith("", password)
+			server.AddAuthenticator(authenticator)
+			server.requirePassAuthenticator = authenticator
 		}
 	}
 
